@@ -183,7 +183,7 @@ def run(ctx):
 
     # ---- free-running
     free = []
-    rounds = 16 if quick else 120
+    rounds = 24 if quick else 180
     for gmp in (1, 2, 16):
         tr, ev = os.path.join(ctx.work, "free_%d.traces" % gmp), os.path.join(ctx.work, "free_%d.events" % gmp)
         e2 = dict(env); e2["GOMAXPROCS"] = str(gmp)
